@@ -115,6 +115,14 @@ def eval_extreme(args):
         lit = ETYPES[t]; base = f'xs:{t}'
         if role == 'key': body = f'<xs:element name="y" type="{base}" maxOccurs="unbounded"/>'; ident = '<xs:key name="K"><xs:selector xpath="y"/><xs:field xpath="."/></xs:key>'
         elif role == 'attr-key': body = f'<xs:element name="y" maxOccurs="unbounded"><xs:complexType><xs:attribute name="v" type="{base}"/></xs:complexType></xs:element>'; ident = '<xs:unique name="K"><xs:selector xpath="y"/><xs:field xpath="@v"/></xs:unique>'
+        elif role == 'alternative':
+            # XSD 1.1 type alternatives whose tests build a value of the type from an untyped attribute, and divide: a dynamic error of the test is a false test
+            body = (f'<xs:element name="y" maxOccurs="unbounded" type="xs:anyType"><xs:alternative test="xs:{t}(@v) = xs:{t}(\'{lit}\')" type="xs:string"/>'
+                    f'<xs:alternative test="xs:integer(@v) idiv 0 = 1" type="xs:string"/><xs:alternative test="(1 div xs:double(@v)) gt 0 and xs:date(@v) gt xs:date(\'2000-01-01\')" type="xs:token"/></xs:element>'); ident = ''
+        elif role == 'timezone':
+            if t not in ('date', 'dateTime', 'time', 'gYear', 'gYearMonth', 'gDay'): _E[key] = None; return None
+            body = ''.join(f'<xs:element name="{nm}" maxOccurs="unbounded" minOccurs="0"><xs:simpleType><xs:restriction base="{base}"><xs:explicitTimezone value="{val}"/></xs:restriction></xs:simpleType></xs:element>'
+                           for nm, val in (('y', 'prohibited'), ('z', 'required'), ('o', 'optional'))); ident = ''
         elif role == 'enum': body = f'<xs:element name="y" maxOccurs="unbounded"><xs:simpleType><xs:restriction base="{base}"><xs:enumeration value="{lit}"/></xs:restriction></xs:simpleType></xs:element>'; ident = ''
         else:
             facet = 'maxLength' if t in ('hexBinary', 'anyURI', 'QName') else ('pattern' if t == 'boolean' else 'maxInclusive')
@@ -125,9 +133,10 @@ def eval_extreme(args):
     if s is None: return None
     from xml.sax.saxutils import escape, quoteattr
     lit = ETYPES[t]
-    doc = '<r xmlns:xs="http://www.w3.org/2001/XMLSchema">' + ''.join(f'<y v={quoteattr(x)}/>' if role == 'attr-key' else f'<y>{escape(x)}</y>' for x in (v, lit, v)) + '</r>'
+    doc = '<r xmlns:xs="http://www.w3.org/2001/XMLSchema">' + ''.join(f'<y v={quoteattr(x)}/>' if role in ('attr-key', 'alternative') else f'<y>{escape(x)}</y>' for x in (v, lit, v)) + '</r>'
+    if role == 'timezone': doc = doc.replace('</r>', ''.join(f'<{nm}>{escape(x)}</{nm}>' for nm in 'zo' for x in (v, lit + 'Z', lit)) + '</r>')
     bad = []
-    for name, f in (('iter_errors', lambda: list(s.iter_errors(doc))), ('decode_lax', lambda: s.decode(doc, validation='lax')), ('lazy', lambda: list(s.iter_errors(xmlschema.XMLResource(doc, lazy=True))))):
+    for name, f in (('decode_skip', lambda: s.decode(doc, validation='skip')), ('is_valid', lambda: s.is_valid(doc)), ('iter_errors', lambda: list(s.iter_errors(doc))), ('decode_lax', lambda: s.decode(doc, validation='lax')), ('lazy', lambda: list(s.iter_errors(xmlschema.XMLResource(doc, lazy=True))))):
         try: f()
         except xmlschema.XMLSchemaException as e: bad.append((name, 'lax raised ' + type(e).__name__))
         except Exception as e: bad.append((name, f'{type(e).__name__}: {str(e)[:80]}'))
@@ -221,7 +230,7 @@ def run(tier, seed, open_findings):
     out.append(result('C11.limit_sweep', f'{len(ljobs)} (lazy, limit setting, size) points at limit-1, limit, limit+1 for depth and element count x 6 source kinds (text, bytes, path, open binary / text files, BytesIO)', len(ljobs), lf, exhaustive=True,
                       samples=[dict(lazy=False, max_depth=5, depth=5)]))
     # extreme lexical values where a typed value is computed outside the datatype decoder: identity fields (XPath typed value) and facets
-    ejobs = [(ver, t, v, role) for ver in ('1.0', '1.1') for t in ETYPES for v in EVALUES for role in ('key', 'enum', 'range', 'attr-key')]
+    ejobs = [(ver, t, v, role) for ver in ('1.0', '1.1') for t in ETYPES for v in EVALUES for role in ('key', 'enum', 'range', 'attr-key') + (('alternative', 'timezone') if ver == '1.1' else ())]
     eres = pmap(eval_extreme, ejobs)
     out.append(result('C11.extreme_values_in_fields_and_facets', f'{len(ETYPES)} builtin types x {len(EVALUES)} extreme values x (key field, attribute key field, enumeration, range facet) x 2 classes x 3 entry points',
                       len(ejobs) * 3, [dict(case=dict(extreme=True, ver=r['ver'], type=r['type'], value=r['value'], role=r['role']), observed=r['bad'], required='a verdict or a library exception')
